@@ -24,9 +24,11 @@ class Hist(object):
         self.ever = []        # every identifier ever returned by a creating operation
         self.live = {}        # uid -> dict(owner, policy, kind)
         self.dead = []        # in order of destruction
+        self.problems = []    # (key, what) noticed by an action itself
 
     def copy(self):
         h = Hist()
+        h.problems = list(self.problems)
         h.ever = list(self.ever)
         h.live = {k: dict(v) for k, v in self.live.items()}
         h.dead = list(self.dead)
@@ -189,6 +191,45 @@ ACTIONS = {
 }
 NAMES = list(ACTIONS)
 
+# other spellings of a numeric identifier: whichever of them the server resolves, an acknowledged
+# Destroy has destroyed something, and what it destroyed stays dead under its canonical spelling
+_AI = str.maketrans('0123456789', '\u0660\u0661\u0662\u0663\u0664\u0665\u0666\u0667\u0668\u0669')
+_FW = str.maketrans('0123456789', '\uff10\uff11\uff12\uff13\uff14\uff15\uff16\uff17\uff18\uff19')
+SPELLINGS = [
+    ('lead-zero', lambda u: '0' + u), ('lead-space', lambda u: ' ' + u), ('trail-space', lambda u: u + ' '),
+    ('plus', lambda u: '+' + u), ('decimal', lambda u: u + '.0'), ('exponent', lambda u: u + 'e0'),
+    ('arabic-indic', lambda u: u.translate(_AI)), ('fullwidth', lambda u: u.translate(_FW)),
+    ('underscore', lambda u: '0_' + u), ('hex', lambda u: hex(int(u))), ('newline', lambda u: u + '\n'),
+]
+
+
+def _spelled_destroy(k):
+    def act(w, h):
+        u = _newest(h, 'alice')
+        if not u:
+            return
+        sp = SPELLINGS[k][1](u)
+        cols, rows = w.dump()['managed_objects']
+        before = set(str(r[cols.index('uid')]) for r in rows)
+        r = w.do((1, 4), W.p_destroy(sp), user='alice')
+        if not r.items[0].ok():
+            return
+        cols, rows = w.dump()['managed_objects']
+        gone = before - set(str(r_[cols.index('uid')]) for r_ in rows)
+        if not gone:
+            h.problems.append(("destroy-acknowledged-nothing-destroyed|%s" % SPELLINGS[k][0],
+                               "Destroy(%r) (a spelling of identifier %s) was acknowledged as successful "
+                               "but no object left the store" % (sp, u)))
+        for g in gone:
+            if g in h.live:
+                del h.live[g]
+            h.dead.append(g)
+    return act
+
+
+for _k in range(len(SPELLINGS)):
+    ACTIONS['destroy_spelled:%s' % SPELLINGS[_k][0]] = _spelled_destroy(_k)
+
 
 def _addressing_probes(uid):
     return [
@@ -210,6 +251,8 @@ def _addressing_probes(uid):
 
 def check_state(w, h, full, bad, other_rows_before=None, destroyed_now=()):
     """Appends (key, what) to bad."""
+    bad.extend(h.problems)
+    del h.problems[:]
     if len(set(h.ever)) != len(h.ever):
         dup = sorted(u for u in set(h.ever) if h.ever.count(u) > 1)
         bad.append(("reuse", "identifier(s) %s were handed out twice (all: %s)" % (dup, h.ever)))
@@ -325,6 +368,10 @@ def reuse_family(tier):
                     if tier == 'thorough':
                         for c2 in CREATORS[:3]:
                             out.append(h + ['destroy_newest_owner', c2])
+    for name, _ in SPELLINGS:
+        for p in (['create_a'], ['create_b_open', 'create_a', 'create_a'], ['register_secret_a']):
+            for r in RESTARTS:
+                out.append(p + ['destroy_spelled:' + name] + ([r] if r else []) + ['create_a'])
     return out
 
 
